@@ -60,6 +60,17 @@ def _do_lookup(s, l):
                 return None
             return [(k, v if isinstance(v, str) else v.sql()) for k, v in r.items()]
         return _answer(f)
+    if kind == "column_names_args":
+        # per-call dialect / normalize arguments, through a str and through an exp.Table (memoised per Table)
+        def f():
+            target = exp.to_table(l[1]) if l[4] else l[1]
+            return list(s.column_names(target, dialect=l[2], normalize=l[3]))
+        return _answer(f)
+    if kind == "has_column_args":
+        def f():
+            target = exp.to_table(l[1]) if l[5] else l[1]
+            return bool(s.has_column(target, l[2], dialect=l[3], normalize=l[4]))
+        return _answer(f)
     if kind == "column_names_tbl":
         # lookup through an exp.Table object (exercises _normalized_table_cache)
         return _answer(lambda: list(s.column_names(exp.to_table(l[1], dialect=s.dialect))))
@@ -307,8 +318,12 @@ def worker(ctx):
                     ops.append(("type", n, rng.choice(u.cols)))
                 elif k < 0.9:
                     ops.append(("find", n, rng.random() < 0.5, rng.random() < 0.5))
-                else:
+                elif k < 0.95:
                     ops.append(("column_names_tbl", n))
+                elif rng.random() < 0.5:
+                    ops.append(("column_names_args", n, rng.choice([None, "snowflake", "duckdb", "mysql"]), rng.choice([None, True, False]), rng.random() < 0.6))
+                else:
+                    ops.append(("has_column_args", n, rng.choice(u.cols), rng.choice([None, "snowflake", "duckdb"]), rng.choice([None, True]), rng.random() < 0.6))
         if not any(o[0] == "add" and o[2] for o in ops):
             continue
         # an add_table(x, None) for a table never registered would create a column-less table that
